@@ -372,7 +372,7 @@ def run_case(case):
             copy.data_arrays["apos"][0, 0] = 123.0
             views = {"group": copy.groups["grp"].data_arrays["sig"].label, "tag-reference": copy.tags["tag"].references[0].label,
                      "mtag-reference": copy.multi_tags["mtag"].references[0].label,
-                     "mtag-positions": float(copy.multi_tags["mtag"].positions[0, 0]),
+                     "mtag-positions": float(np.asarray(copy.multi_tags["mtag"].positions[0, 0]).ravel()[0]),
                      "feature-data": None}
             copy.data_arrays["feat"].label = "feat-inside-copy"
             views["feature-data"] = copy.tags["tag"].features[0].data.label
@@ -384,7 +384,7 @@ def run_case(case):
                            "in the copied block the %s link does not lead to the copied entity (reads %r after changing the copy's array to %r)" % (
                                k_, views[k_], v_), {})
                     return r
-            if src.data_arrays["sig"].label == "inside-copy" or float(src.data_arrays["apos"][0, 0]) == 123.0:
+            if src.data_arrays["sig"].label == "inside-copy" or float(np.asarray(src.data_arrays["apos"][0, 0]).ravel()[0]) == 123.0:
                 r.viol("C20|%s|change-of-copy-visible-in-source|array" % cls, "changing an array of the copied block changed the source block", {})
                 return r
         # ---- independence: every mutation of the menu on the copy, then on the source
